@@ -20,7 +20,7 @@ for a in sys.argv[3:]:
     jobs.put((name, d, props.split(",") if props else [name[:3]]))
 lock = threading.Lock()
 results = json.load(open(out)) if os.path.exists(out) else {}
-MODE = os.environ.get("PAR_MODE", "all")      # all | detect (skip confirmation) | confirm (skip checks)
+MODE = os.environ.get("PAR_MODE", "all")      # all | detect (skip confirmation) | confirm (skip checks) | benign (build, tests, checks; no demo)
 
 
 def sh(cmd, cwd, timeout=3600, env=None):
@@ -68,6 +68,7 @@ def worker(i):
                 r["builds_verif"] = "error" not in o
                 rc, o = sh("cargo test --offline -j 6 2>&1 | grep -E '^test result' | head -1", repo)
                 r["tests"] = o.strip()
+            if MODE not in ("detect", "benign"):
                 rc, o = sh(f"bash {d}/demo/run.sh", repo, timeout=1200)
                 r["demo_with_patch_exit"] = rc
                 r["demo_with_tail"] = o[-300:]
@@ -81,7 +82,7 @@ def worker(i):
                     r["checks"][p] = {"exit": rc, "s": round(time.time() - t1), "violations": viol[:2], "detail": [x[:400] for x in detail],
                                       "tail": o[-1500:] if rc == 2 else ""}
             sh("git checkout -q -- . && git clean -fdq -e target", repo)
-            if MODE != "detect":
+            if MODE not in ("detect", "benign"):
                 rc, o = sh(f"bash {d}/demo/run.sh", repo, timeout=1200)
                 r["demo_without_patch_exit"] = rc
                 r["confirmed"] = bool(r["builds_verif"] and "44 passed; 0 failed" in r["tests"] and r["demo_with_patch_exit"] != 0 and rc == 0)
